@@ -401,6 +401,9 @@ class _LocalManagerForSched:
     def dict(self, *a, **k):
         return dict(*a, **k)
 
+    def shutdown(self):
+        pass
+
 
 class owned_primitives:
     """Context manager around the construction of a store: Lock / RLock / Condition (threading and multiprocessing)
@@ -456,16 +459,32 @@ class owned_primitives:
 
 def adopt_store(store, owner):
     """After construction under owned_primitives: name the scheduler-owned objects after the attributes that hold
-    them. Returns {attribute name: SchedCondition}."""
+    them - on the store itself or on a helper object of the hashstore package that the store holds (a lock table,
+    say). Returns {name: SchedCondition} for every condition created during construction."""
+    names = {}
+
+    def visit(obj, prefix, depth):
+        try:
+            items = list(vars(obj).items())
+        except TypeError:
+            return
+        for attr, val in items:
+            if isinstance(val, (SchedLock, SchedCondition)):
+                names.setdefault(id(val), prefix + attr)
+            elif depth < 2 and type(val).__module__.split(".")[0] == "hashstore" and not isinstance(val, type):
+                visit(val, prefix + attr + ".", depth + 1)
+    visit(store, "", 0)
     conds = {}
-    for attr, val in vars(store).items():
-        if isinstance(val, SchedLock):
-            val.mutex.name = attr
-            val.name = attr
-    for attr, val in vars(store).items():
-        if isinstance(val, SchedCondition):
-            val.name = attr
-            conds[attr] = val
+    for prim in owner.created:
+        name = names.get(id(prim))
+        if isinstance(prim, SchedLock) and name:
+            prim.mutex.name = name
+            prim.name = name
+    for k, prim in enumerate(owner.created):
+        if isinstance(prim, SchedCondition):
+            name = names.get(id(prim)) or f"{prim.name}#{k}"
+            prim.name = name
+            conds[name] = prim
     return conds
 
 
@@ -543,7 +562,7 @@ def _lock_name(store, lock_obj, default, mode):
 
 
 def locked_lists(store, mode="th"):
-    return {listattr: list(getattr(store, listattr)) for _c, _l, listattr in SYNC_ATTRS[mode]}
+    return {listattr: list(getattr(store, listattr)) for _c, _l, listattr in SYNC_ATTRS[mode] if hasattr(store, listattr)}
 
 
 # ---------------------------------------------------------------------- choosers
